@@ -210,6 +210,9 @@ func runC20(s *Sim) {
 	}
 	tr.CheckReplies, tr.CheckUp = false, false // overlapping handlers: attribution of publishes is ambiguous by construction
 	root := in.RootID
+	// as the server does: the store reports its handler metrics (points written to the root node from inside the
+	// handlers, once per report period)
+	go func() { _ = in.Store.StartMetrics(root) }()
 	setup, _ := nats.Connect(in.URL(), nats.Name("setup"))
 	s.cleanup = append(s.cleanup, setup.Close)
 	nodes := []string{root, "n1", "n2"}
@@ -443,8 +446,16 @@ func runC20(s *Sim) {
 	// the load has stopped, every handler was released and nothing is delayed: every kind of request is answered now
 	// (handlers that wait for each other -- a lock cycle, an exhausted connection pool -- show up here at the latest)
 	s.DelayPM = 0
+	s.AdvanceIdle(65 * time.Second) // past the store's metric report period: the next handler calls report from inside the handler
 	s.Call(func() {
 		clock += 1000
+		for i := 0; i < 3; i++ {
+			if err := client.SendNodePoint(setup, "n2", data.Point{Type: "probe", Value: float64(i), Time: time.Unix(0, clock+int64(i)), Origin: "setup"}, true); err != nil {
+				s.Fail("C20", "unanswered-after-load", "a minute after the load stopped node-point write %d of 3 in a row was not acknowledged: %v", i+1, err)
+				return
+			}
+		}
+		clock += 10
 		if _, err := client.GetNodes(setup, "root", root, "", true); err != nil {
 			s.Fail("C20", "unanswered-after-load", "after the load stopped a read of the root was not answered: %v", err)
 			return
